@@ -125,11 +125,11 @@ func genIntRules(r *vh.Rand, k IKind) (*IntRules, string) {
 		if r.Chance(85) {
 			*ir.Min, *ir.Max = *ir.Max, *ir.Min
 		} else {
-			class = "inverted-bounds"
+			class = "compile-error" // minimum > maximum is rejected
 		}
 	}
 	if class == "" && k != I64 && r.Chance(8) { // a bound outside the format's range
-		class = "bound-out-of-range"
+		class = "compile-error" // a bound outside the format's range is rejected
 		out := int64(5000000000)
 		if k == U64 {
 			class = ""
